@@ -199,7 +199,7 @@ def system_population(ctx, P, iters):
             return (e.kind == "aug" and e.d["target"] == "self.number_of_individuals") or \
                    (e.kind in ("enter", "call") and e.d["meth"] == "release_individual") or \
                    (e.kind in ("iter", "loopexit") and isinstance(e.node, ast.For))
-        w = Walker(P, view, keep=keep, inline=lambda ev: False, loop_iters=iters)
+        w = Walker(P, view, keep=keep, inline=rules.new_helper, loop_iters=iters)
         for st in w.paths_of(cls, fn):
             inc = 0
             for e in st.events:
@@ -320,7 +320,7 @@ def unguarded_sites(ctx, P):
         for caller in rules.self_callers(view, "reroute"):
             cls, fn = view.resolve(caller)
             w = Walker(P, view, keep=lambda e: e.kind == "guard" or (e.kind in ("call", "enter") and e.d["meth"] == "reroute"),
-                       track=lambda t, fr: "reroute" in unparse(t), inline=lambda ev: False)
+                       track=lambda t, fr: "reroute" in unparse(t), inline=rules.new_helper)
             for st in w.paths_of(cls, fn):
                 for i, e in enumerate(st.events):
                     if e.kind == "call" and e.d["meth"] == "reroute":
